@@ -240,3 +240,208 @@ func errValueOf(v ssa.Value) ssa.Value {
 	}
 	return v
 }
+
+// ---------------------------------------------------------------------------
+// post-dominators and control dependence (per function; CFGs here are small)
+
+type ctrlDep struct {
+	fn   *ssa.Function
+	pdom map[*ssa.BasicBlock]map[*ssa.BasicBlock]bool // pdom[b] = blocks post-dominating b (including b)
+}
+
+func newCtrlDep(fn *ssa.Function) *ctrlDep {
+	cd := &ctrlDep{fn: fn, pdom: map[*ssa.BasicBlock]map[*ssa.BasicBlock]bool{}}
+	all := map[*ssa.BasicBlock]bool{}
+	for _, b := range fn.Blocks {
+		all[b] = true
+	}
+	for _, b := range fn.Blocks {
+		if len(b.Succs) == 0 {
+			cd.pdom[b] = map[*ssa.BasicBlock]bool{b: true}
+		} else {
+			s := map[*ssa.BasicBlock]bool{}
+			for k := range all {
+				s[k] = true
+			}
+			cd.pdom[b] = s
+		}
+	}
+	for changed := true; changed; {
+		changed = false
+		for i := len(fn.Blocks) - 1; i >= 0; i-- {
+			b := fn.Blocks[i]
+			if len(b.Succs) == 0 {
+				continue
+			}
+			ns := map[*ssa.BasicBlock]bool{}
+			for k := range cd.pdom[b.Succs[0]] {
+				ns[k] = true
+			}
+			for _, s := range b.Succs[1:] {
+				for k := range ns {
+					if !cd.pdom[s][k] {
+						delete(ns, k)
+					}
+				}
+			}
+			ns[b] = true
+			if len(ns) != len(cd.pdom[b]) {
+				cd.pdom[b] = ns
+				changed = true
+			}
+		}
+	}
+	return cd
+}
+
+// dependsOn: is block x control dependent on edge (b, k)?
+func (cd *ctrlDep) dependsOn(x, b *ssa.BasicBlock, k int) bool {
+	if len(b.Succs) < 2 {
+		return false
+	}
+	s := b.Succs[k]
+	if !cd.pdom[s][x] {
+		return false
+	}
+	return x == b || !cd.pdom[b][x]
+}
+
+// dependsOnT: transitive control dependence of x on edge (b, k).
+func (cd *ctrlDep) dependsOnT(x, b *ssa.BasicBlock, k int) bool {
+	seen := map[*ssa.BasicBlock]bool{}
+	var rec func(y *ssa.BasicBlock) bool
+	rec = func(y *ssa.BasicBlock) bool {
+		if seen[y] {
+			return false
+		}
+		seen[y] = true
+		if cd.dependsOn(y, b, k) {
+			return true
+		}
+		for _, c := range cd.fn.Blocks {
+			for j := range c.Succs {
+				if len(c.Succs) >= 2 && cd.dependsOn(y, c, j) && c != y && rec(c) {
+					return true
+				}
+			}
+		}
+		return false
+	}
+	return rec(x)
+}
+
+// decidedExit: an If edge that lies on a path from the entry to a Return on which `done` never holds.
+type decidedExit struct {
+	B   *ssa.BasicBlock
+	K   int
+	Ret *ssa.BasicBlock
+}
+
+// undoneExits lists, for every return block reachable from the entry without passing a `done`
+// instruction (and without taking a skipped edge), the If edges on such paths that the return is
+// (transitively) control dependent on.  A return reachable with no deciding edge at all is reported
+// with B == nil.
+func undoneExits(fn *ssa.Function, done func(ssa.Instruction) bool, skipEdge func(b *ssa.BasicBlock, succ int) bool) []decidedExit {
+	if fn.Blocks == nil {
+		return nil
+	}
+	reg := map[*ssa.BasicBlock]bool{}
+	isRet := map[*ssa.BasicBlock]bool{}
+	for _, b := range fn.Blocks {
+		for _, in := range b.Instrs {
+			if done(in) {
+				reg[b] = true
+				break
+			}
+			if _, ok := in.(*ssa.Return); ok {
+				isRet[b] = true
+			}
+		}
+	}
+	// forward: block entries reachable undone
+	uin := map[*ssa.BasicBlock]bool{}
+	var fw func(b *ssa.BasicBlock)
+	fw = func(b *ssa.BasicBlock) {
+		if uin[b] || b == fn.Recover {
+			return
+		}
+		uin[b] = true
+		if reg[b] {
+			return
+		}
+		for k, s := range b.Succs {
+			if skipEdge != nil && skipEdge(b, k) {
+				continue
+			}
+			fw(s)
+		}
+	}
+	fw(fn.Blocks[0])
+	// backward: returns reachable undone from a block's entry
+	vr := map[*ssa.BasicBlock]map[*ssa.BasicBlock]bool{}
+	for changed := true; changed; {
+		changed = false
+		for _, b := range fn.Blocks {
+			if reg[b] {
+				continue
+			}
+			if vr[b] == nil {
+				vr[b] = map[*ssa.BasicBlock]bool{}
+			}
+			n := len(vr[b])
+			if isRet[b] {
+				vr[b][b] = true
+			}
+			for k, s := range b.Succs {
+				if skipEdge != nil && skipEdge(b, k) {
+					continue
+				}
+				for r := range vr[s] {
+					vr[b][r] = true
+				}
+			}
+			if len(vr[b]) != n {
+				changed = true
+			}
+		}
+	}
+	cd := newCtrlDep(fn)
+	var out []decidedExit
+	for _, r := range fn.Blocks {
+		if !isRet[r] || !uin[r] || reg[r] {
+			continue
+		}
+		any := false
+		for _, b := range fn.Blocks {
+			if !uin[b] || reg[b] || len(b.Succs) < 2 {
+				continue
+			}
+			for k, s := range b.Succs {
+				if skipEdge != nil && skipEdge(b, k) {
+					continue
+				}
+				if (s == r || vr[s][r]) && cd.dependsOnT(r, b, k) {
+					out = append(out, decidedExit{b, k, r})
+					any = true
+				}
+			}
+		}
+		if !any {
+			out = append(out, decidedExit{nil, 0, r})
+		}
+	}
+	return out
+}
+
+// blockPos: the last source position in a block (If instructions carry none).
+func blockPos(b *ssa.BasicBlock) token.Pos {
+	for i := len(b.Instrs) - 1; i >= 0; i-- {
+		if p := b.Instrs[i].Pos(); p.IsValid() {
+			return p
+		}
+		if v, ok := b.Instrs[i].(ssa.Value); ok {
+			_ = v
+		}
+	}
+	return token.NoPos
+}
